@@ -145,11 +145,14 @@ def _targets(W):
     return np.array([idx for idx in itertools.product(*[range(k) for k in n]) if pm[idx[:-1]] > 0], dtype=int)
 
 
-def _run_chain(fn, n, r, seed, scripted, m, unsert):
+def _run_chain(fn, n, r, seed, scripted, m, unsert, exp=0):
     square = fn == 'sample_square'
     Y, W, total = _tensor(n, r, seed, square)
     if total == 0:
         return SKIP('zero tensor defines no distribution')
+    if exp:
+        # exact power-of-two rescaling of every core: the distribution (entry^2 / total) is unchanged
+        Y = [G * 2.0 ** exp for G in Y]
     d = len(n)
     if scripted:
         T = _targets(W)
@@ -206,6 +209,13 @@ def sample_chain_random(n, r, seed, m):
 def sample_square_chain(n, r, seed):
     """sample_square(unique=False), scripted audit over every multi-index with squared entries."""
     return _run_chain('sample_square', n, r, seed, True, None, None)
+
+
+@clause('C14.sample_square.chain_scaled', funcs=('sample.sample_square', 'sample._sample_core_first'))
+def sample_square_chain_scaled(n, r, seed, exp):
+    """sample_square on a tensor whose cores are all multiplied by 2**exp (ordinary per-core values, extreme overall norm):
+    the audited chain of conditionals still multiplies to entry^2 / total for every multi-index."""
+    return _run_chain('sample_square', n, r, seed, True, None, None, exp=exp)
 
 
 @clause('C14.sample_square.chain_random', funcs=('sample.sample_square', 'sample._sample_core_first'))
@@ -443,6 +453,9 @@ def sample_tt_layout(n, r, seed, genobj, as_array):
 
 
 def cases(tier, seed):
+    for _exp in (-133, -150, 300, 60):
+        for _n, _r in (([2, 3, 2, 2], 2), ([3, 2, 2, 2], 1), ([2, 2, 3, 3], 3)):
+            yield 'C14.sample_square.chain_scaled', dict(n=_n, r=_r, seed=11 + abs(_exp), exp=_exp)
     big = tier == 'thorough'
     g = gen.rng('C14', seed)
 
